@@ -13,7 +13,7 @@ use aranya_policy_module::{
 use aranya_policy_vm::{
     ActionContext, CommandContext, ExitReason, FactKey, FactKeyList, FactValue, FactValueList,
     Identifier, Instruction, KVPair, Label, LabelType, Machine, MachineError, MachineErrorType,
-    MachineIO, MachineIOError, MachineStack, MachineStatus, Meta, PolicyContext, RunState, Stack,
+    MachineIO, MachineIOError, MachineStatus, Meta, PolicyContext, RunState, Stack,
     Struct, Value, ident,
 };
 
@@ -139,6 +139,7 @@ impl<S: Stack> MachineIO<S> for RecIo {
 }
 
 #[derive(Debug)]
+#[allow(dead_code)]
 pub enum CompileOutcome {
     ParseError(String),
     CompileError(String),
@@ -408,8 +409,6 @@ pub fn run_action(machine: &Machine, io: &mut RecIo, name: &str, args: Vec<Value
     }
 }
 
-#[allow(dead_code)]
-pub fn machine_stack_unused(_: MachineStack) {}
 
 // ---------------------------------------------------------------------------------------------
 // model values -> VM values
